@@ -6,7 +6,7 @@ namespace Usual.C01
 open Finset
 
 /-- the counter of a limit chunk after `apply_memlimit(p, d, _)` with `d ≥ 0` -/
-theorem applyLim_lcur {rk : Nat → Nat} {s : State} (i : Inv rk s) (cfg : Cfg) (f : Nat) (t : Option Id)
+theorem applyLim_lcur {rk : Nat → Nat} {s : State} (i : InvT rk s) (cfg : Cfg) (f : Nat) (t : Option Id)
     (d : Nat) (force : Bool) (s' : State) (h : applyLim cfg f s t (d : Int) force = some s')
     (l : Nat) (lb : Obj) (hl : s.get l = some lb) :
     ∃ lb', s'.get l = some lb' ∧ lb'.kind = lb.kind ∧ lb'.parent = lb.parent ∧ lb'.size = lb.size ∧
@@ -27,7 +27,7 @@ theorem chargeAt_eq {s s' : State} {x : Nat} (h : (s'.get x).map (·.size) = (s.
 
 
 /-- ancestors of an old chunk after a new leaf was added -/
-theorem anc_allocS_old {s1 : State} (w : WFp s1) (p' : Option Id) (front : Bool) (nb : Obj)
+theorem anc_allocS_old {s1 : State} (w : WFt s1) (p' : Option Id) (front : Bool) (nb : Obj)
     (hpl : ∀ p, p' = some p → p < s1.heap.length) (a x : Nat) (hx : x < s1.heap.length) :
     Anc (allocS s1 p' front nb) a x ↔ Anc s1 a x := by
   have hg := allocS_get s1 p' front nb hpl
@@ -55,7 +55,7 @@ theorem anc_allocS_old {s1 : State} (w : WFp s1) (p' : Option Id) (front : Bool)
     | @up y p a hp _ ih => exact Anc.up (by rw [hpo y hx]; exact hp) (ih (hlt y p hp))
 
 /-- ancestors of the new leaf: its parent and the parent's ancestors -/
-theorem anc_allocS_new {s1 : State} (w : WFp s1) (p' : Option Id) (front : Bool) (nb : Obj)
+theorem anc_allocS_new {s1 : State} (w : WFt s1) (p' : Option Id) (front : Bool) (nb : Obj)
     (hnp : nb.parent = p') (hpl : ∀ p, p' = some p → p < s1.heap.length) (a : Nat) :
     Anc (allocS s1 p' front nb) a s1.heap.length ↔ ∃ p, p' = some p ∧ (a = p ∨ Anc s1 a p) := by
   have hg := allocS_get s1 p' front nb hpl
@@ -77,7 +77,7 @@ theorem anc_allocS_new {s1 : State} (w : WFp s1) (p' : Option Id) (front : Bool)
 open Classical in
 /-- **accounting, allocation**: after `apply_memlimit(parent, +charge)` and linking the new chunk,
 every (old) limit chunk records the charge beneath its context again -/
-theorem acct_add_leaf {rk : Nat → Nat} {s : State} (i : Inv rk s) (fl : FlagsInv s) (ac : AcctInv s) (cfg : Cfg)
+theorem acct_add_leaf {rk : Nat → Nat} {s : State} (i : InvT rk s) (fl : FlagsInv s) (ac : AcctInv s) (cfg : Cfg)
     (hfix : cfg.fixGone = true) (p' : Option Id)
     (hpar : ∀ p, p' = some p → ∃ pb, s.get p = some pb ∧ pb.kind = .plain)
     (n : Nat) (s1 : State) (ha : applyLim cfg s.fuel s p' (totalSize n : Int) false = some s1)
@@ -87,7 +87,7 @@ theorem acct_add_leaf {rk : Nat → Nat} {s : State} (i : Inv rk s) (fl : FlagsI
   intro l lb2 ctx hl2 hk2 hp2 hne
   have hsh := applyLim_shapeEq _ _ _ _ _ _ _ ha
   have hlen := applyLim_length _ _ _ _ _ _ _ ha
-  have i1 : Inv rk s1 := i.shapeEq hsh
+  have i1 : InvT rk s1 := i.shapeEq hsh
   have hpl : ∀ p, p' = some p → p < s1.heap.length := by
     intro p hp; obtain ⟨pb, hpb, -⟩ := hpar p hp; rw [hlen]; exact lt_of_get s p pb hpb
   have hg := allocS_get s1 p' front nb hpl
